@@ -259,6 +259,36 @@ def legacyDelete (st : Store) (id : Name) : Store × Option Err :=
   if st.cfgMode then (st, some .legacyDisabled)
   else ({ st with rows := st.rows.filter (·.1 ≠ id) }, none)
 
+/-- the write operations of the store (what the engine's op lines parse to) -/
+inductive Op
+  | ent (e : Entry)                      -- ConfigEntry apply of a service-intentions entry
+  | entdel (n : Name)                    -- DeleteConfigEntry
+  | up (dst : Name) (v : Src)            -- IntentionMutation upsert
+  | del (dst src : Name)                 -- IntentionMutation delete by name
+  | lcreate (dst : Name) (v : Src)       -- IntentionMutation create (legacy API on config entries)
+  | lset (id : Name) (r : Ixn)           -- LegacyIntentionSet
+  | ldel (id : Name)                     -- LegacyIntentionDelete
+deriving Repr
+
+def applyOpE (st : Store) : Op → Store × Option Err
+  | .ent e => applyEntry st e
+  | .entdel n => (deleteEntry st n, none)
+  | .up dst v => mutUpsert st dst v
+  | .del dst src => mutDelete st dst src
+  | .lcreate dst v => mutLegacyCreate st dst v
+  | .lset id r => legacySet st id r
+  | .ldel id => legacyDelete st id
+
+/-- a history of writes; rejected writes leave the store unchanged -/
+def run (st : Store) (ops : List Op) : Store := ops.foldl (fun s o => (applyOpE s o).1) st
+
+/-- a history of writes all of which are accepted -/
+def runE (st : Store) : List Op → Option Store
+  | [] => some st
+  | o :: os => match applyOpE st o with
+    | (st', none) => runE st' os
+    | (_, some _) => none
+
 /-! ### reads -/
 
 /-- `getIntentionPrecedenceMatchServiceNames` (CE) -/
